@@ -227,24 +227,52 @@ theorem named_route_in_invokers_group_is_skipped_observation :
 
 /-! ### source facts (regenerated from /repo on every run) -/
 
-/-- the request-context values the routing reads are written at these places and nowhere else:
-    vars table, group map and original-request copy in `PrepareRequest` (once per request), the
-    error in `WithError` (which writes NOTHING else — in particular no new group map); the active
-    health checker builds its own synthetic request (property C09). -/
+/-- the request-context values the routing reads are written at these places and nowhere else
+    (sites identified by the key argument of `context.WithValue`, counted over the functions
+    reachable from each entry point by same-package static calls — helper extraction and renames
+    do not change the counts): vars table and original-request copy once each from `PrepareRequest`,
+    the error once from `WithError` (reached from `Subroute.ServeHTTP` and `Server.ServeHTTP`), which
+    writes NOTHING else; the second vars/original-request write of the totals is the active health
+    checker's synthetic request (property C09). -/
 theorem request_context_writes_match_source :
-    Gen.requestCtxWrites =
-      [ ("modules/caddyhttp/reverseproxy/healthchecks.go:doActiveHealthCheck", "VarsCtxKey", "?{…}"),
-        ("modules/caddyhttp/reverseproxy/healthchecks.go:doActiveHealthCheck", "OriginalRequestCtxKey", "*req"),
-        ("modules/caddyhttp/server.go:WithError", "ErrorCtxKey", "err"),
-        ("modules/caddyhttp/server.go:PrepareRequest", "VarsCtxKey", "?{…}"),
-        ("modules/caddyhttp/server.go:PrepareRequest", "routeGroupCtxKey", "make(?)"),
-        ("modules/caddyhttp/server.go:PrepareRequest", "OriginalRequestCtxKey", "originalRequest(r,&url2)") ] := by decide
+    Gen.requestCtxWrites = [
+  ("PrepareRequest", "WithValue VarsCtxKey", 1),
+  ("PrepareRequest", "WithValue OriginalRequestCtxKey", 1),
+  ("PrepareRequest", "WithValue ErrorCtxKey", 0),
+  ("wrapRoute", "WithValue VarsCtxKey", 0),
+  ("wrapRoute", "WithValue OriginalRequestCtxKey", 0),
+  ("wrapRoute", "WithValue ErrorCtxKey", 0),
+  ("HTTPErrorConfig.WithError", "WithValue VarsCtxKey", 0),
+  ("HTTPErrorConfig.WithError", "WithValue OriginalRequestCtxKey", 0),
+  ("HTTPErrorConfig.WithError", "WithValue ErrorCtxKey", 1),
+  ("Subroute.ServeHTTP", "WithValue VarsCtxKey", 0),
+  ("Subroute.ServeHTTP", "WithValue OriginalRequestCtxKey", 0),
+  ("Subroute.ServeHTTP", "WithValue ErrorCtxKey", 1),
+  ("Server.ServeHTTP", "WithValue VarsCtxKey", 0),
+  ("Server.ServeHTTP", "WithValue OriginalRequestCtxKey", 0),
+  ("Server.ServeHTTP", "WithValue ErrorCtxKey", 1),
+  ("total modules/caddyhttp/**", "WithValue VarsCtxKey", 2),
+  ("total modules/caddyhttp/**", "WithValue OriginalRequestCtxKey", 2),
+  ("total modules/caddyhttp/**", "WithValue ErrorCtxKey", 1)] := by decide
 
-/-- the group map has one creator (`PrepareRequest`) and one reader (`wrapRoute`) -/
+/-- the group map: exactly ONE `WithValue(routeGroupCtxKey)` in the tree, reachable from
+    `PrepareRequest` and from no other entry point — none from `WithError`, `Subroute.ServeHTTP` or
+    the server's error path; one reader, reachable from `wrapRoute`; no other mention. -/
 theorem route_group_map_sites_match_source :
-    Gen.routeGroupCtxUses =
-      [ ("modules/caddyhttp/routes.go:wrapRoute", "Value"),
-        ("modules/caddyhttp/server.go:PrepareRequest", "WithValue") ] := by decide
+    Gen.routeGroupCtxUses = [
+  ("PrepareRequest", "WithValue routeGroupCtxKey", 1),
+  ("PrepareRequest", "Value routeGroupCtxKey", 0),
+  ("wrapRoute", "WithValue routeGroupCtxKey", 0),
+  ("wrapRoute", "Value routeGroupCtxKey", 1),
+  ("HTTPErrorConfig.WithError", "WithValue routeGroupCtxKey", 0),
+  ("HTTPErrorConfig.WithError", "Value routeGroupCtxKey", 0),
+  ("Subroute.ServeHTTP", "WithValue routeGroupCtxKey", 0),
+  ("Subroute.ServeHTTP", "Value routeGroupCtxKey", 0),
+  ("Server.ServeHTTP", "WithValue routeGroupCtxKey", 0),
+  ("Server.ServeHTTP", "Value routeGroupCtxKey", 0),
+  ("total modules/caddyhttp/**", "WithValue routeGroupCtxKey", 1),
+  ("total modules/caddyhttp/**", "Value routeGroupCtxKey", 1),
+  ("total modules/caddyhttp/**", "other routeGroupCtxKey", 0)] := by decide
 
 /-- `FromInterface` appends `matcherSet` to `*ms` unconditionally, once per round of its outer loop
     (the shape `provSetsInto` has), and so does `MatchNot.Provision` for the sets of a `not`; `ProvisionHandlers` appends every loaded handler and wraps every
